@@ -21,6 +21,8 @@ CLAIMED = {
          "Modelled-not-verified: text/template, go/format, the Go compiler. goCase/constantName of the real generator are compared with the model on random identifiers through a verif hook.", "Lean 4 proof over naming model + factgen tie + go build oracle over random programs"),
  "C10": ("partial: sorted-key iteration renders the same output for every iteration order of a key-distinct map (renderSorted_order_irrelevant, via mergeSort lemmas); merge-with-conflict-detection is order-independent in outcome and result; every `range <map>` site of gen/ and internal/plugin is classified (sites_classified, regenerated with go/types). Go's map iteration itself is observed: N fresh-process generations per program + permuted link orders, file hashes compared. D10/D21 known", "§5 C10",
          "Modelled-not-verified: Go map iteration, text/template ordering, os.WriteFile.", "Lean 4 proof over order model + go/types site extraction + repeated-run hash comparison"),
+ "C11": ("partial: parse returns program ⊕ non-empty errors ⊕ (model fuel exhausted — not excluded by proof); error and token lines within [1, lines+1]; quote/unquote round trips (exact characterisation of the D16 failure set, safe printers round-trip on every byte string); token positions true for tokens outside the D18/D62 shapes (`tok_pos_partial`, input-level variant); walk: traversal equation, true parent, each node once; lexInt round trips; single-token print/scan round trips; witnesses D16, D18, D19, D20, D61, D62, D63. Not proved: node positions at parser level, token-sequence and grammar-level round trips (harness: random ASTs rendered by an independent printer with true positions)", "§5 C11",
+         "Modelled-not-verified: the ragel/goyacc tables (lex.go, y.go are the implementation; the model is a hand-written scanner + recursive-descent parser compared differentially), strconv.Unquote/ParseFloat (modelled exactly, compared through hooks).", TECH),
  "C12": ("M-Wire envelopes: strict and legacy round trips, 3-way request classification, wrong-type rejection, response echo, streaming API accepts whatever the random-access API accepts under EVERY chunking (needs the io.ReadFull repair, finding D1, fixed in /repo); tie = facts (version constants, envelope types) + differential run of both request APIs, both responder APIs, 3 framings, random segmentation", "§5 C12", "Modelled-not-verified: io.ReadFull, io.MultiReader.", TECH),
  "C13": ("partial: theorem stream_alloc_bound (for every input and type, length-driven allocation of the streaming decoder ≤ 5·N + 1 MiB + 1 KiB), envelope_alloc_bound, frame_alloc_bound, recursion depth ≤ 3N+3, decoded counts ≤ N; witnesses for D2 (repaired) and D3 (known). Not proved: the lazy-extent bound for unforced random-access decodes; wall time. Tie: regenerated thresholds + measured TotalAlloc of every decoding API on ≤64-byte messages with huge declared lengths, compared two-sidedly with the model's prediction and with 12 MiB + 64·N", "§5 C13", "Modelled-not-verified: bytes.Buffer growth (bounded as 4·present+1024), the Go allocator, runtime.MemStats. Generated decoders' pre-sizing (D3) is a known finding.", "Lean 4 proof over cost-instrumented model + factgen tie + measured-allocation correspondence"),
  "C14": ("partial: generated Equals is reflexive, symmetric and transitive on decoded values for every schema and type (pigeonhole lemma for the one-directional set/map loops; hash and slice representations; structs with nil handling); order (in)sensitivity and nil handling; witness that duplicates break symmetry. Not proved: Equals ⇔ ValuesAreEqual(ToWire) ⇔ structural comparison (harness oracles)", "§5 C14", "Modelled-not-verified: generated text, Go map semantics for float keys (modelled: NaN ≠ NaN, +0 = −0).", TECH),
@@ -46,6 +48,7 @@ def main():
       {"name": "factgen", "path": "harness/cmd/factgen", "serves_properties": sorted(CLAIMED), "kind_free_text": "go/parser(+go/types) fact extractor regenerating lean/ThriftVerif/Facts/Gen*.lean on every run"},
       {"name": "wirecheck", "path": "harness/cmd/wirecheck", "serves_properties": ["C02", "C03", "C12", "C13"], "kind_free_text": "Go differential harness: real protocol/binary + wire packages vs Lean driver wiredrv, plus implementation-side property oracles"},
       {"name": "gencheck", "path": "harness/cmd/gencheck", "serves_properties": [p for p in ["C01", "C04", "C05", "C06", "C10", "C14", "C15", "C19"] if p in CLAIMED], "kind_free_text": "random abstract programs → real thriftrw → go build/vet → reflect value driver vs Lean driver schemadrv; independent Go reference codec and oracles"},
+      {"name": "idlcheck", "path": "harness/cmd/idlcheck", "serves_properties": ["C11"], "kind_free_text": "random ASTs over the full grammar rendered with randomised layout and recorded true positions; idl.Parse/ast.Walk vs Lean driver idldrv + independent oracles"},
       {"name": "breakcheck", "path": "harness/cmd/breakcheck", "serves_properties": ["C20"], "kind_free_text": "scratch git repositories → real thriftbreak binary + in-process compare vs Lean Break model + declarative oracle"},
      ],
      "checks": [], "not_applicable": [],
